@@ -1282,7 +1282,8 @@ func (dsc *dataStoreCommand) lpop(keyName string, count int) (values [][]byte, e
 		return
 	}
 
-	values = make([][]byte, 0, count)
+	// the list bounds the result, however large the requested count
+	values = make([][]byte, 0, min(count, list.count))
 
 	for ; count > 0; count-- {
 		item := list.head
@@ -1387,7 +1388,8 @@ func (dsc *dataStoreCommand) rpop(keyName string, count int) (values [][]byte, e
 		return
 	}
 
-	values = make([][]byte, 0, count)
+	// the list bounds the result, however large the requested count
+	values = make([][]byte, 0, min(count, list.count))
 
 	for ; count > 0; count-- {
 		item := list.tail
